@@ -137,6 +137,12 @@ pub struct ThreadStats {
 /// Run the corpus from `threads` threads released by a barrier, each in its own permutation; every execution
 /// records global start/end sequence numbers so that the overlap actually achieved is measured, not assumed.
 pub fn threaded(corpus: &[Case], reference: &[u64], threads: usize, rounds: usize, seed: u64) -> ThreadStats {
+    threaded_pinned(corpus, reference, threads, rounds, seed, false)
+}
+
+/// `pin_first`: thread k starts with case k (the caller puts cases of one class there), so that the very first validations
+/// of a process all take the same rarely travelled path at once.
+pub fn threaded_pinned(corpus: &[Case], reference: &[u64], threads: usize, rounds: usize, seed: u64, pin_first: bool) -> ThreadStats {
     let seq = AtomicU64::new(0);
     let in_flight = AtomicU64::new(0);
     let max_in_flight = AtomicU64::new(0);
@@ -154,6 +160,10 @@ pub fn threaded(corpus: &[Case], reference: &[u64], threads: usize, rounds: usiz
                 barrier.wait();
                 for round in 0..rounds {
                     r.shuffle(&mut order);
+                    if pin_first && round == 0 && th < order.len() {
+                        let p = order.iter().position(|x| *x == th).unwrap();
+                        order.swap(0, p);
+                    }
                     for (k, &i) in order.iter().enumerate() {
                         let start = seq.fetch_add(1, Ordering::SeqCst);
                         let f = in_flight.fetch_add(1, Ordering::SeqCst) + 1;
@@ -192,11 +202,59 @@ pub fn threaded(corpus: &[Case], reference: &[u64], threads: usize, rounds: usiz
 
 /// Child process: cold start — the very first validation of the process happens on 16 threads at once.
 /// Prints "<digest of all outcomes> <overlapping first-call pairs> <max in flight> <mismatches within process>".
+/// 16 cases that all take one rarely travelled path of the library (a lazily initialised static used only there):
+/// an unparsable timestamp, a path with runs of slashes in standard mode, a folded form with an unknown charset.
+fn same_class_cases(seed: u64, class: &str) -> Vec<Case> {
+    let mut out = Vec::new();
+    let mut i = 0u64;
+    while out.len() < 16 && i < 400 {
+        i += 1;
+        let mut r = Rng::keyed(seed, "C18", "cold-class", 0, i);
+        let mut cfg = gen_cfg(&mut r);
+        cfg.s3 = false;
+        cfg.fold = class == "unknown-charset";
+        let l = gen_logical(&mut r, &cfg, &GenOpts::default());
+        let mut sr = Rng::keyed(seed, "C18", "cold-class-spell", 0, i);
+        let mut sp = Speller {
+            r: &mut sr,
+            level: 0,
+        };
+        let inj = match class {
+            "unparsable-date" => "date-unparsable",
+            "unknown-charset" => "body-unknown-charset",
+            _ => "",
+        };
+        let chosen: Vec<usize> = INJECTORS.iter().enumerate().filter(|(_, j)| j.name == inj).map(|(k, _)| k).collect();
+        let (mut case, applied) = build_case(&l, &cfg, &chosen, &mut r, &mut sp);
+        if !inj.is_empty() && applied.is_empty() {
+            continue;
+        }
+        if class == "multi-slash" {
+            if case.wire.uri.first() != Some(&b'/') {
+                continue;
+            }
+            let mut u = b"//a///b/".to_vec();
+            u.extend_from_slice(&case.wire.uri);
+            case.wire.uri = u;
+        }
+        out.push(case);
+    }
+    out
+}
+
 pub fn sub_cold(seed: u64, n: u64, threads: usize) -> i32 {
-    let c = corpus(seed, n);
+    let mut c = corpus(seed, n);
+    // VERIF_C18_COLD_CLASS: every thread's first validation is of this one class
+    let class = std::env::var("VERIF_C18_COLD_CLASS").ok();
+    let pin = class.is_some();
+    if let Some(cl) = &class {
+        let mut first = same_class_cases(seed, cl);
+        first.extend(c);
+        c = first;
+    }
     // no reference pass before the race: the lazy statics must be initialised under contention
     let dummy: Vec<u64> = vec![0; c.len()];
-    let st = threaded(&c, &dummy, threads, 1, seed);
+    let st = threaded_pinned(&c, &dummy, threads, 1, seed, pin);
     // afterwards compute the sequential digests in this same process
     let seq = sequential_digests(&c);
     // every thread's result for case i was compared to 0 → collect what they saw instead
@@ -459,6 +517,46 @@ pub fn run(tier: Tier) -> i32 {
         }
     }
     t.add("cold_starts_with_overlapping_first_calls", cold_overlap_procs);
+    // (iii') cold starts in which all 16 threads' first validation takes the same rarely travelled path
+    for class in ["unparsable-date", "multi-slash", "unknown-charset"] {
+        let class_ref = {
+            let mut cc = same_class_cases(seed, class);
+            cc.extend(corpus(seed, cold_cases));
+            let seq = sequential_digests(&cc);
+            let mut h = crate::sha::Sha256::new();
+            for d in &seq {
+                h.update(&d.to_le_bytes());
+            }
+            crate::sha::hex(&h.finish())
+        };
+        let handles: Vec<_> = (0..tier.n(2, 12))
+            .map(|_| {
+                let args = vec!["sub".to_string(), "c18-cold".to_string(), seed.to_string(), cold_cases.to_string(), "16".to_string()];
+                let class = class.to_string();
+                std::thread::spawn(move || child_output_env(&args, &[("VERIF_C18_COLD_CLASS", class.as_str())]))
+            })
+            .collect();
+        for h in handles {
+            match h.join().unwrap_or(Err("join".into())) {
+                Err(e) => t.inconclusive.push(format!("cold-start child ({}): {}", class, e)),
+                Ok(line) => {
+                    let f: Vec<&str> = line.split_whitespace().collect();
+                    if f.len() != 4 {
+                        t.inconclusive.push(format!("cold-start child output not understood: {:?}", line));
+                        continue;
+                    }
+                    t.evaluations += (cold_cases + 16) * 17;
+                    if f[0] != class_ref {
+                        viol(&mut t, "cold-digest", format!("fresh process (cold start, first validations all of class '{}') computed corpus digest {} ≠ {}", class, f[0], class_ref), None);
+                    }
+                    if f[3] != "0" {
+                        viol(&mut t, "cold-race", format!("cold start with first validations all of class '{}': {} executions differed from the same process's sequential result", class, f[3]), None);
+                    }
+                    t.count("cold_start_same_class_processes");
+                }
+            }
+        }
+    }
     let n_proc = tier.n(8, 32);
     let big_ref = {
         let mut h = crate::sha::Sha256::new();
@@ -510,6 +608,7 @@ pub fn run(tier: Tier) -> i32 {
     ctx.gate("validations suspended at the provider and finished on another thread, same outcome as alone", t.get("interleaved_and_migrated_validations_agree"), tier.n(500, 8000));
     ctx.gate("log records produced during the pass with a trace-level logger (outcomes unchanged)", t.get("log_records_during_logging_pass"), tier.n(2000, 20_000));
     ctx.gate("cold-start processes run", t.get("cold_start_processes"), n_cold);
+    ctx.gate("cold-start processes whose first validations all took the same rarely travelled path (3 classes)", t.get("cold_start_same_class_processes"), 3 * tier.n(2, 12));
     ctx.gate("cold starts in which ≥ 2 threads overlapped inside their first validation", t.get("cold_starts_with_overlapping_first_calls"), tier.n(6, 60));
     ctx.gate("fresh processes agreeing on the corpus digest", t.get("fresh_processes_agreeing"), n_proc);
     if tier == Tier::Thorough {
@@ -518,7 +617,7 @@ pub fn run(tier: Tier) -> i32 {
     }
     let rep = Report {
         level: "exploration",
-        rule: "Outcome comparator: a mixed corpus (accepted, 1–4 defects, hostile noise; both carriers, all options; services with signed-header requirements in every container; several unsigned headers under one required prefix; a distinctive identity and session per case; sibling cases that put the *same* wire request under another option set, clock or provider answer) is validated single-threaded to obtain reference digests (Ok/error kind, code, status + message + returned parts/body/principal/session + provider event log; the one thing left out is *which* of several unsigned prefixed headers a refusal message names); the same cases are then re-validated (i) twice in shuffled order, (i') with a trace-level logger installed and capturing, (i'') three at a time, each suspended at its key provider and polled in turn on one thread or finished by another thread, (ii) from 2/4/8/16 threads released by a barrier, each in its own permutation, on a 24-case hot set (many rounds) and on the full corpus, (iii) in fresh processes whose *first* validations happen on 16 threads at once (lazy statics and regex pools initialised under contention), (iv) in fresh processes sequentially (different HashMap seeds), meeting the cases in forward, reversed or shuffled order, every other one with a logger at Trace; thorough adds (v) the thread workload under ThreadSanitizer (-Zbuild-std) and under Miri with several scheduler seeds. Interleaving evidence is measured: global start/end sequence numbers give max in flight and overlapping first-call pairs. Distinct = distinct (case, mode) comparisons that agreed.".into(),
+        rule: "Outcome comparator: a mixed corpus (accepted, 1–4 defects, hostile noise; both carriers, all options; services with signed-header requirements in every container; several unsigned headers under one required prefix; a distinctive identity and session per case; sibling cases that put the *same* wire request under another option set, clock or provider answer) is validated single-threaded to obtain reference digests (Ok/error kind, code, status + message + returned parts/body/principal/session + provider event log; the one thing left out is *which* of several unsigned prefixed headers a refusal message names); the same cases are then re-validated (i) twice in shuffled order, (i') with a trace-level logger installed and capturing, (i'') three at a time, each suspended at its key provider and polled in turn on one thread or finished by another thread, (ii) from 2/4/8/16 threads released by a barrier, each in its own permutation, on a 24-case hot set (many rounds) and on the full corpus, (iii) in fresh processes whose *first* validations happen on 16 threads at once (lazy statics and regex pools initialised under contention; also with every thread's first validation of one class — unparsable timestamp, runs of slashes, unknown charset — so that the statics used only there are contended too), (iv) in fresh processes sequentially (different HashMap seeds), meeting the cases in forward, reversed or shuffled order, every other one with a logger at Trace; thorough adds (v) the thread workload under ThreadSanitizer (-Zbuild-std) and under Miri with several scheduler seeds. Interleaving evidence is measured: global start/end sequence numbers give max in flight and overlapping first-call pairs. Distinct = distinct (case, mode) comparisons that agreed.".into(),
         assumptions: vec!["interleavings are sampled, not enumerated; no delay can be injected inside lazy_static/regex without patching dependencies".into()],
         extra: J::obj().set("calibrated_vectors", J::i(pre.unwrap_or(0) as i64)).set("sanitizers", san),
     };
